@@ -33,6 +33,7 @@ Inductive wcmd :=
 | WReadDirs (o : nat) (dist etc name sfx : option str) (dl cm : str)
 | WReadConfig (o : nat) (project usr name sfx : option str) (dl cm : str)
 | WHistory (dist etc name sfx : option str) (dl cm : str)
+| WWriteTo (o : nat) (dir fname : str)        (* econf_writeFile into a directory of the tree *)
 | WErrLoc.
 
 Fixpoint tput (t : tree) (p : str) (n : node) : tree :=
@@ -85,6 +86,23 @@ Definition wstep (w : world) (c : wcmd) : world * out :=
        | inr files => OHist ECONF_SUCCESS files (checks_of (ho_events h)) (map (real_name (w_tree w)) (opens_of (ho_events h)))
        | inl e => OHist e [] (checks_of (ho_events h)) (map (real_name (w_tree w)) (opens_of (ho_events h)))
        end)
+  | WWriteTo o dir fname =>
+      (* econf_writeFile: stat() of the directory (not there / not a directory: ECONF_NOFILE), fopen(dir/name, "w")
+         (fails on a directory of that name: ECONF_WRITEERROR), then the text of the object is the file *)
+      match sget (w_store w) o with
+      | None => (w, ORc ECONF_ERROR)
+      | Some kf =>
+          match tlookup (w_tree w) (fs_resolve 8 (w_tree w) (squeeze dir)) with
+          | Some (NDir _ _) =>
+              let p := squeeze (dir ++ 47 :: fname) in
+              match tlookup (w_tree w) (fs_resolve 8 (w_tree w) p) with
+              | Some (NDir _ _) => (w, ORc ECONF_WRITEERROR)
+              | _ => (mkW (w_store w) (tput (w_tree w) (fs_resolve 8 (w_tree w) p) (NFile (write_model kf) 0 0)) (w_g w) (w_cb w),
+                      ORc ECONF_SUCCESS)
+              end
+          | _ => (w, ORc ECONF_NOFILE)
+          end
+      end
   | WErrLoc => (w, OLoc (g_errfile (w_g w)) (g_errline (w_g w)))
   end.
 
